@@ -336,8 +336,8 @@ MISROUND = [29000000, 2999, 57000000, 58000000, 113000000, 114000000, 1000, 2100
 
 
 @st.composite
-def cases(draw, signed=None):
-    kind = draw(st.sampled_from(list(LEGACY + SEGWIT)))
+def cases(draw, signed=None, kinds=None):
+    kind = draw(st.sampled_from(list(kinds or LEGACY + SEGWIT)))
     n = draw(st.integers(1, 3)) if kind in ("multisig", "p2sh", "p2wsh", "p2sh-p2wsh") else 1
     m = draw(st.integers(1, n))
     keys = [draw(st.integers(1, 2**64)) for _ in range(n)]
